@@ -127,8 +127,30 @@ class C10(SigBase):
     driver_in = "signal_drv.ml.in"
     open_module = "Signal_model"
     coq_targets = ["theories/MT/SignalModel.vo", "theories/MT/SignalProofs.vo", "theories/MT/SignalFacts.vo",
-                   "theories/MT/SignalMon.vo"]
+                   "theories/MT/SignalMon.vo",
+                   "theories/Base/CSem.vo", "theories/Base/CSemFacts.vo", "theories/Gen/LeafSignal.vo", "theories/MT/SignalLink.vo"]
+
+    # way (a) of the tie for the order of the interest trees: iv_signal_compare is re-translated from the current source on every
+    # run (gen/c2gallina.py -> Gen/LeafSignal.v); MT/SignalLink.v proves it equal to lt_rec of MT/SignalModel.v
+    def pre_proof(self, ctx):
+        import leafgen
+        return leafgen.regenerate(["LeafSignal.v"])
+
+    def proofs(self, ctx):
+        import leafgen
+        from framework import LineCheck
+        return leafgen.explain(
+            LineCheck.proofs(self, ctx), "SignalLink", "C10_compare_is_the_code (MT/SignalLink.v: leaf_signal_compare / leaf_signal_lt / "
+            "leaf_signal_eq)",
+            "iv_signal_compare of the current src/iv_signal.c (signum, then IV_SIGNAL_FLAG_EXCLUSIVE first, then the address of the "
+            "struct), as translated by gen/c2gallina.py into Gen/LeafSignal.v, is not the order lt_rec in which MT/SignalModel.v keeps "
+            "its interest list any more")
+
     trusted = [
+        "gen/c2gallina.py (class CTr: clang JSON AST -> Gen/LeafSignal.v, rerun on every check) and the C semantics Base/CSem.v: the whole "
+        "function iv_signal_compare is translated and proved equal to lt_rec (C10_compare_is_the_code); the iv_container_of initialisers "
+        "of its locals a, b are not translated (a, b = the two struct iv_signal objects), relational comparison of their addresses is "
+        "comparison of integers (flat address space), IV_SIGNAL_FLAG_EXCLUSIVE is the macro-expanded constant of the current header",
         "virtual signals (harness/mt.c): sigaction / pthread_sigmask are interposed, a raised signal is delivered by calling the "
         "recorded handler at the target thread's next yield point when its virtual mask allows -- the harness's model of the kernel",
         "modelled, not verified: the two AVL trees are one list sorted by iv_signal_compare filtered by scope (C16 covers iv_avl.c); "
@@ -372,8 +394,29 @@ class C11(SigBase):
     model_ml = "wait_model.ml"
     driver_in = "wait_drv.ml.in"
     open_module = "Wait_model"
-    coq_targets = ["theories/MT/WaitModel.vo", "theories/MT/WaitProofs.vo"]
+    coq_targets = ["theories/MT/WaitModel.vo", "theories/MT/WaitProofs.vo",
+                   "theories/Base/CSem.vo", "theories/Gen/LeafWait.vo", "theories/MT/WaitLink.vo"]
+
+    # way (a) of the tie for the key of the interest tree: iv_wait_interest_compare and the two tests of __iv_wait_interest_find are
+    # re-translated from the current source on every run (gen/c2gallina.py -> Gen/LeafWait.v); MT/WaitLink.v ties them to w_pid
+    def pre_proof(self, ctx):
+        import leafgen
+        return leafgen.regenerate(["LeafWait.v"])
+
+    def proofs(self, ctx):
+        import leafgen
+        from framework import LineCheck
+        return leafgen.explain(
+            LineCheck.proofs(self, ctx), "WaitLink", "C11_compare_is_the_code (MT/WaitLink.v: leaf_wait_compare / leaf_wait_compare_eq / "
+            "leaf_wait_find_hit / leaf_wait_find_left)",
+            "iv_wait_interest_compare (three-way comparison of ->pid) or a test of __iv_wait_interest_find (`pid == p->pid`, "
+            "`pid < p->pid`) of the current src/iv_wait.c, as translated by gen/c2gallina.py into Gen/LeafWait.v, is not the pid key under "
+            "which MT/WaitModel.v looks interests up (find_pid) any more")
+
     trusted = [
+        "gen/c2gallina.py (class CTr: clang JSON AST -> Gen/LeafWait.v, rerun on every check) and the C semantics Base/CSem.v: "
+        "iv_wait_interest_compare and the two tests of __iv_wait_interest_find are translated and proved to be the comparison of the pids "
+        "(C11_compare_is_the_code); the iv_container_of initialisers of the locals a, b are not translated",
         "virtual child processes (harness/mt.c): fork (parent side; the child is scripted), wait4 (returns the scripted status changes, "
         "first child in creation order that has one), kill, getpid are interposed; SIGCHLD is a virtual signal -- the harness's model of the kernel",
         "modelled, not verified: the tree iv_wait_interests is the list of registered, not-DEAD interests (C16 covers iv_avl.c); which thread's "
@@ -582,10 +625,34 @@ class C19(SigBase):
     model_ml = "popen_model.ml"
     driver_in = "popen_drv.ml.in"
     open_module = "Popen_model"
-    coq_targets = ["theories/Misc/PopenModel.vo", "theories/Misc/PopenProofs.vo"]
+    coq_targets = ["theories/Misc/PopenModel.vo", "theories/Misc/PopenProofs.vo",
+                   "theories/Base/CSem.vo", "theories/Gen/LeafPopen.vo", "theories/Misc/PopenLink.vo"]
+
+    # way (a) of the tie for the escalation decision: `signum = (ch->num_kills++ < MAX_SIGTERM_COUNT) ? SIGTERM : SIGKILL`, the
+    # `tv_sec += SIGNAL_INTERVAL` re-arm and the `num_kills = 0` of the close are re-translated from the current source on every
+    # run (gen/c2gallina.py -> Gen/LeafPopen.v); Misc/PopenLink.v proves them equal to expected_sig / INTERVAL / 0 of the model
+    def pre_proof(self, ctx):
+        import leafgen
+        return leafgen.regenerate(["LeafPopen.v"])
+
+    def proofs(self, ctx):
+        import leafgen
+        from framework import LineCheck
+        return leafgen.explain(
+            LineCheck.proofs(self, ctx), "PopenLink", "C19_escalation_is_the_code (Misc/PopenLink.v: leaf_signum_all / "
+            "leaf_signum_values / leaf_rearm / timer_handler_is_the_code / close_is_the_code)",
+            "the escalation decision `signum = (ch->num_kills++ < MAX_SIGTERM_COUNT) ? SIGTERM : SIGKILL`, the re-arm "
+            "`expires.tv_sec += SIGNAL_INTERVAL` of iv_popen_running_child_timer or the `ch->num_kills = 0` of iv_popen_request_close in "
+            "the current src/iv_popen.c, as translated by gen/c2gallina.py into Gen/LeafPopen.v, is not the model's expected_sig "
+            "(SIGTERM for counter < 5, then SIGKILL; counter + 1) / INTERVAL (5 s) / 0 any more")
+
     corr_name = ("acceptance of the observable events of every popen child (close, signals with their times, reaps, loop exit) in the "
                  "implementation's log by the Coq acceptor pcheck of Misc/PopenModel.v")
     trusted = [
+        "gen/c2gallina.py (class CTr: clang JSON AST -> Gen/LeafPopen.v, rerun on every check) and the C integer semantics Base/CSem.v "
+        "(None = signed overflow): the escalation statement, the 5 s re-arm and the counter reset are translated and proved equal to the "
+        "model's (C19_escalation_is_the_code); the int counter and time_t are unbounded integers in the model (ranges are hypotheses: "
+        "2^31 signals, 2^63 s); `expires = iv_now` (struct assignment) is not translated",
         "virtual child processes and virtual time (harness/mt.c, vk.c): fork (parent side only), wait4, kill, the clock that jumps to the "
         "earliest deadline when every thread is blocked -- the harness's model of the kernel; the child's reaction to signals is scripted "
         "by the scenario (kill hook)",
